@@ -59,7 +59,7 @@ LAYOUTS_1D = ['C', 'C', 'strided', 'reversed', 'readonly', 'bigendian']
 
 def relayout(a, kind):
     """Same shape, same values, different memory layout / flags (standing layout family for array arguments)."""
-    a = np.asarray(a)
+    a = np.array(a)                 # always a private copy: the result never shares memory with the argument
     if kind == 'C' or a.ndim == 0:
         return np.array(a, order='C')
     if a.ndim == 1:
@@ -142,6 +142,30 @@ def count_row_closeness(out, xpos):
         out.count('xpos_rows_different_but_allclose')
 
 
+def scribble(a):
+    """write into an array a call returned / was given (what a caller may legitimately do with its own arrays)"""
+    a = np.asarray(a)
+    if not a.flags.writeable or a.size == 0:
+        return False
+    if a.dtype.kind == 'f':
+        a[...] = np.nan
+    elif a.dtype.kind == 'b':
+        a[...] = ~a
+    else:
+        a[...] = a + 7
+    return True
+
+
+def no_alias(out, clause, pairs):
+    for name, a, b in pairs:
+        out.expect(not np.shares_memory(np.asarray(a), np.asarray(b)), clause,
+                   '%s share memory: writing into one changes the other' % name)
+    out.count('shares_memory_checked', len(pairs))
+
+
+YDT = {'same': None, 'f8': np.float64, 'i2': np.int16, 'i4': np.int32, 'i8': np.int64, 'u2': np.uint16, 'f4': np.float32}
+
+
 def _lst(a):
     return np.asarray(a, dtype=np.float64).tolist()
 
@@ -167,7 +191,10 @@ class C13(Check):
             'view / C- and F-strided / reversed along either axis / read-only / big-endian, func_fit arguments strided / '
             'reversed / read-only / big-endian; rows of the positions unrelated, identical, or one common grid (offsets 0, 1000..5000, '
             '3500, 1e5) with per-row shifts of 0 / 1e-12 .. 1e-3 relative or absolute, the default grid given explicitly, points and '
-            'explicit xmin/xmax 1e-12..1e-3 beside xmin, xmax, the jump edges and the data extremes) '
+            'explicit xmin/xmax 1e-12..1e-3 beside xmin, xmax, the jump edges and the data extremes; with float64 positions '
+            'ypos also int16/int32/int64/uint16 or float32 and invvar float32; after every call the returned arrays, the '
+            'arguments and the first object\'s coeff/yfit/outmask are overwritten and the call repeated on the same and on a '
+            'fresh object) '
             'on the same object in another order (jump / ignore_jump alternating, reshaped xpos, first xpos again); default '
             'grids with xmax-xmin exactly integral, within 1e-12..1e-3 of an integer and generic.  Non-trivial: a basis '
             'case with m >= 3; a fit with unequal weights, a zero weight or a fixed coefficient; a trace set with >= 2 '
@@ -207,6 +234,9 @@ class C13(Check):
                          'xpos_rows_differ_by_at_most_1e-10_relative', 'xpos_rows_differ_by_at_most_1e-7_relative',
                          'xpos_rows_differ_by_at_most_1e-5_relative', 'xpos_rows_differ_by_at_most_1e-3_relative',
                          'xpos_explicit_default_grid_or_hair_beside', 'tset_explicit_limits_hair_beside_data',
+                         'writethrough_default_grid', 'writethrough_explicit_xpos', 'writethrough_fresh_object', 'writethrough_tset_objects',
+                         'writethrough_func_fit', 'writethrough_basis', 'shares_memory_checked',
+                         'tset_ypos_integer_dtype', 'tset_ypos_float32_with_float64_xpos', 'tset_invvar_float32_with_float64_xpos',
                          'tset_fit_args_layout_not_C', 'fit_args_layout_strided', 'fit_args_layout_reversed',
                          'fit_args_layout_readonly', 'fit_args_layout_bigendian',
                          'table_eval_jump', 'table_eval_ignore_jump', 'table_eval_nojump', 'table_split_step_decided',
@@ -460,6 +490,10 @@ class C13(Check):
                 if ivm == 'zeros':
                     iv[g.uniform(size=(nT, nx)) < 0.15] = 0.0
                 iv = iv.astype(DT[dt])
+            ivdtype = 'same'
+            if iv is not None and dt == 'f8' and rng.random() < 0.3:
+                ivdtype = 'f4'                     # weights in another float dtype than the positions
+                iv = iv.astype(np.float32).astype(np.float64)
             inmask = None
             mask_dtype = None
             if rng.random() < 0.5:
@@ -481,6 +515,20 @@ class C13(Check):
                 off = (w == 0) * g.choice([-1.0, 1.0], (nT, nx)) * amp * 10.0 ** g.uniform(0.5, 3.5, (nT, nx))
                 ypos = ypos + off
             ypos = ypos.astype(DT[dt])
+            ydtype = 'same'
+            if dt == 'f8':                         # ypos dtype independent of xpos: detector rows / counts, single precision
+                ydtype = rng.choice(['same', 'same', 'same', 'i2', 'i4', 'i8', 'u2', 'f4'])
+                if ydtype == 'f4':
+                    ypos = ypos.astype(np.float32).astype(np.float64)
+                elif ydtype != 'same':
+                    ypos = np.round(ypos)
+                    lim = float(np.abs(ypos).max())
+                    if ydtype == 'u2' and (ypos.min() < 0 or lim > 65000):
+                        ydtype = 'i8'
+                    if ydtype == 'i2' and lim > 32000:
+                        ydtype = 'i4'
+                    if ydtype == 'i4' and lim > 2e9:
+                        ydtype = 'i8'
             ok = True
             for t in range(nT):
                 gd = w[t] > 0
@@ -501,6 +549,7 @@ class C13(Check):
                     'ypos': [_lst(r) for r in ypos], 'invvar': None if iv is None else [_lst(r) for r in iv],
                     'inmask': None if inmask is None else inmask.tolist(), 'mask_dtype': mask_dtype, 'outliers': outliers,
                     'pseed': rng.getrandbits(32), 'xmin': xmin, 'xmax': xmax, 'jump': jump, 'jkind': jm, 'mmkind': mm,
+                    'ydtype': ydtype, 'ivdtype': ivdtype,
                     'maxiter': rng.choice([None, None, 0, 3, 20]), 'via': rng.choice(['xy2traceset', 'TraceSet']),
                     'defaults': rng.random() < 0.5, 'minmax_int': rng.random() < 0.5,
                     'layouts': {k: rng.choice(LAYOUTS) for k in ('xfit', 'yfit', 'ivfit', 'maskfit', 'eval1', 'eval2', 'eval3')}}
@@ -651,6 +700,16 @@ class C13(Check):
             out.count('basis_rows_float16', m)
         if np.any(np.abs(x) == 1):
             out.count('basis_abscissa_at_pm1')
+        if isinstance(got, np.ndarray) and not out.fails:
+            got0 = got.copy()
+            xin = x.copy()
+            got2 = self.basis_func(fn)(xin, m)
+            no_alias(out, 'write-through', [('two basis evaluations', got, got2), ('the basis and its abscissae', got2, xin)])
+            scribble(got)
+            scribble(got2)
+            out.expect(np.array_equal(self.basis_func(fn)(x.copy(), m), got0), 'write-through',
+                       'basis changed after the caller wrote into the arrays of earlier calls')
+            out.count('writethrough_basis')
         out.nontrivial = m >= 3 and x.size >= 1
 
     def run_scalar(self, case, out):
@@ -798,6 +857,21 @@ class C13(Check):
             out.expect(np.array_equal(yfit2[~zero], yfit[~zero]), 'fit-zero-weight-no-influence',
                        'yfit at weighted points changed when only zero-weight points were changed')
             out.count('zero_weight_perturbations', int(zero.sum()))
+        # write-through: the caller overwrites the returned arrays and fits again
+        res0, yfit0 = res.copy(), yfit.copy()
+        args3 = [view(a) for a in (x, y, iv, ia, ans, inf)]
+        res3, yfit3 = self._call_fit(case, *args3)
+        no_alias(out, 'write-through', [('res of two calls', res, res3), ('yfit of two calls', yfit, yfit3)] +
+                 [('a result and the argument %s' % nm, r_, a) for r_ in (res3, yfit3)
+                  for nm, a in zip(('x', 'y', 'invvar', 'ia', 'inputans', 'inputfunc'), args3) if a is not None])
+        scribble(res)
+        scribble(yfit)
+        scribble(res3)
+        scribble(yfit3)
+        res4, yfit4 = self._call_fit(case, *[view(a) for a in (x, y, iv, ia, ans, inf)])
+        out.expect(np.array_equal(res4, res0) and np.array_equal(yfit4, yfit0), 'write-through',
+                   'func_fit returns something else after the caller wrote into the arrays of earlier calls')
+        out.count('writethrough_func_fit')
         out.info['cond'] = ref['cond']
         out.nontrivial = bool(zero.any() or (~free).any() or (iv is not None and len(np.unique(iv)) > 1))
 
@@ -871,7 +945,10 @@ class C13(Check):
         eps = EPS[dt]
         func, nc = case['func'], case['nc']
         xpos = np.array(case['xpos'], dtype=D)
-        ypos = np.array(case['ypos'], dtype=D)
+        YD = YDT.get(case.get('ydtype', 'same')) or D
+        ypos = np.array(case['ypos'], dtype=YD)
+        if YD is not D:
+            out.count('tset_ypos_integer_dtype' if np.dtype(YD).kind in 'iu' else 'tset_ypos_float32_with_float64_xpos')
         nT, nx = xpos.shape
         kw = {'func': func, 'ncoeff': nc}
         if case.get('defaults'):                  # documented defaults: legendre, 3 coefficients
@@ -881,7 +958,9 @@ class C13(Check):
                 del kw['ncoeff']
         iv = inmask = None
         if case['invvar'] is not None:
-            iv = np.array(case['invvar'], dtype=D)
+            iv = np.array(case['invvar'], dtype=np.float32 if case.get('ivdtype') == 'f4' else D)
+            if case.get('ivdtype') == 'f4':
+                out.count('tset_invvar_float32_with_float64_xpos')
             kw['invvar'] = iv.copy()
         if case['inmask'] is not None:
             inmask = np.array(case['inmask'], dtype=bool)
@@ -939,7 +1018,7 @@ class C13(Check):
         out.expect(ye.shape == xpos.shape and np.array_equal(ye, ye2), 'tset-roundtrip', 'traceset2xy and TraceSet.xy differ')
         coeff = np.asarray(tset.coeff)
         yfit = np.asarray(tset.yfit)
-        rt_tol = 1e-12 if dt == 'f8' else 200.0 * R.EPS32    # float32: coefficients, yfit and y each rounded to float32
+        rt_tol = 1e-12 if (dt == 'f8' and case.get('ydtype') != 'f4') else 200.0 * R.EPS32    # float32: coefficients, yfit and y each rounded to float32
         w = np.ones((nT, nx)) if iv is None else iv.astype(np.float64)
         if inmask is not None:
             w = w * inmask
@@ -982,7 +1061,9 @@ class C13(Check):
             c = ref['coeff']
             dB = max(R.basis_tol(func, k, eps, dt == 'f8') for k in range(nc)) / 100.0
             Rr = max(abs(xmin), abs(xmax)) / (xmax - xmin)
-            reltol = K_COEFF[dt] * eps * ref['cond'] ** 2 + 100.0 * ref['cond'] * dB * (1.0 + Rr)
+            # precision of the product y*invvar: float32 when both operands are at most single precision (numpy promotion)
+            fp = 'f4' if (dt == 'f4' or (case.get('ivdtype') == 'f4' and case.get('ydtype') in ('f4', 'i2', 'u2'))) else 'f8'
+            reltol = K_COEFF[fp] * EPS[fp] * ref['cond'] ** 2 + 100.0 * ref['cond'] * dB * (1.0 + Rr)
             if dt == 'f4':
                 reltol += 100.0 * eps                      # coefficients stored in float32
             sc = float(np.linalg.norm(c)) + ref['bnorm'] / ref['smax']
@@ -990,15 +1071,15 @@ class C13(Check):
             c64 = coeff[t].astype(np.float64)
             grad = A.T @ (ref['b'] - A @ c64)
             gs = ref['smax'] * (ref['smax'] * float(np.linalg.norm(c64)) + ref['bnorm'])
-            gtol = GRAD_TOL[dt] * (1.0 + Rr)
-            rel = float(np.linalg.norm(grad)) / gs
+            gtol = GRAD_TOL[fp] * (1.0 + Rr)
+            rel = float(np.linalg.norm(grad)) / gs if gs > 0 else float(np.linalg.norm(grad))
             if not out.expect(rel <= gtol, 'tset-fit-normal-equations',
                               'trace %d: residual of the stored fit is not orthogonal to the basis under the weights '
                               'invvar*inmask: %.3g (tolerance %.3g)' % (t, rel, gtol), coeff=coeff[t], lstsq=c):
                 all_ok = False
                 break
             out.info['tset_grad_rel'] = max(out.info.get('tset_grad_rel', 0.0), rel / gtol)
-            if reltol <= COEFF_DECIDABLE[dt]:
+            if reltol <= COEFF_DECIDABLE[fp]:
                 dev = float(np.abs(c64 - c).max())
                 if not out.expect(dev <= reltol * sc, 'tset-fit-coefficients',
                                   'trace %d: coefficients differ from dense weighted lstsq by %.3g (tolerance %.3g)'
@@ -1006,7 +1087,7 @@ class C13(Check):
                     all_ok = False
                     break
                 out.count('tset_fit_coeff_compared')
-                out.info['tset_coeff_dev_over_tol'] = max(out.info.get('tset_coeff_dev_over_tol', 0.0), dev / (reltol * sc))
+                out.info['tset_coeff_dev_over_tol'] = max(out.info.get('tset_coeff_dev_over_tol', 0.0), dev / (reltol * sc) if sc > 0 else 0.0)
             else:
                 out.undecide()
         if all_ok:
@@ -1039,9 +1120,16 @@ class C13(Check):
         if masked.any():
             p = np.random.default_rng(case.get('pseed', 0))
             big = 1e6 * max(1.0, float(np.abs(ypos.astype(np.float64)).max()))
-            y2 = ypos.astype(np.float64)
-            y2[masked] += p.choice([-1.0, 1.0], int(masked.sum())) * big
-            tset2 = ctor(lay(xpos, 'xfit'), lay(y2.astype(D), 'yfit'), **kw)
+            if np.dtype(YD).kind in 'iu':
+                lim = np.iinfo(YD)
+                y2 = ypos.copy()
+                y2[masked] = np.where(p.random(int(masked.sum())) < 0.5, lim.min, lim.max).astype(YD)
+                y2[masked & (y2 == ypos)] = lim.max // 2
+            else:
+                y2 = ypos.astype(np.float64)
+                y2[masked] += p.choice([-1.0, 1.0], int(masked.sum())) * big
+                y2 = y2.astype(YD)
+            tset2 = ctor(lay(xpos, 'xfit'), lay(y2, 'yfit'), **kw)
             out.expect(np.array_equal(np.asarray(tset2.coeff), coeff), 'tset-masked-no-influence',
                        'coefficients changed when only masked / zero-weight points were changed (inmask dtype %s): '
                        'max change %.3g' % (case.get('mask_dtype'), float(np.abs(np.asarray(tset2.coeff, dtype=np.float64) -
@@ -1077,6 +1165,32 @@ class C13(Check):
         out.expect(np.array_equal(np.asarray(tset.coeff), coeff) and float(tset.xmin) == xmin and float(tset.xmax) == xmax,
                    'repeat-evaluation', 'evaluating changed the trace set (coeff / xmin / xmax)')
         out.count('repeat_eval_same_object')
+        # live objects / write-through: a second object from fresh copies of the same arguments; then the caller writes into
+        # its own input arrays, into everything the first object holds and into everything the calls returned
+        coeff0, yfit0, ye0 = coeff.copy(), yfit.copy(), ye.copy()
+        kwB = {k: (relayout(v, 'C') if isinstance(v, np.ndarray) else v) for k, v in kw.items()}
+        for key, slot in (('invvar', 'ivfit'), ('inmask', 'maskfit')):
+            if key in kwB:
+                kwB[key] = lay(kwB[key], slot)
+        XB, YB = lay(xpos, 'xfit'), lay(ypos, 'yfit')
+        tsetB = ctor(XB, YB, **kwB)
+        no_alias(out, 'write-through', [('coeff of two trace sets', tset.coeff, tsetB.coeff), ('yfit of two trace sets', tset.yfit, tsetB.yfit),
+                                        ('yfit and the given ypos', tsetB.yfit, YB), ('yfit and the given xpos', tsetB.yfit, XB),
+                                        ('coeff and the given xpos', tsetB.coeff, XB), ('two evaluations', ye, yr),
+                                        ('an evaluation and yfit', ye, tset.yfit), ('an evaluation and coeff', ye, tset.coeff)])
+        n_w = sum(scribble(a) for a in [XB, YB] + [v for v in kwB.values() if isinstance(v, np.ndarray)])
+        n_w += sum(scribble(a) for a in (tset.coeff, tset.yfit, tset.outmask, ye, yr, yo, yh))
+        out.expect(np.array_equal(np.asarray(tsetB.coeff), coeff0) and np.array_equal(np.asarray(tsetB.yfit), yfit0), 'write-through',
+                   'a second trace set built from the same arguments changed (or differs) after the caller wrote into its '
+                   'own input arrays and into the first trace set')
+        xb, yb = T.traceset2xy(tsetB, lay(xpos, 'eval1', False))
+        out.expect(np.array_equal(yb, ye0), 'write-through', 'evaluation of the second trace set differs from the first one\'s')
+        gB = T.traceset2xy(tsetB)
+        scribble(gB[0])
+        scribble(gB[1])
+        self._check_grid(out, tsetB, func, coeff0, xmin, xmax, jump, R.EPS32 if (dt == 'f4' and case['xmin'] is None) else R.EPS64,
+                         band=SPLIT_BAND['f8'])
+        out.count('writethrough_tset_objects', n_w)
         out.nontrivial = nc >= 2
 
     def _check_grid(self, out, tset, func, coeff, xmin, xmax, jump, eps_range, band, ignore_jump=False, jump_eps=0.0):
@@ -1107,6 +1221,19 @@ class C13(Check):
         self._check_eval(out, 'grid-evaluate', func, coeff, np.tile(want, (nT, 1)), yg, xmin, xmax,
                          None if ignore_jump else jump, R.EPS64 if f64 else R.EPS32, f64,
                          band if f64 else SPLIT_BAND['f4'], jump_eps)
+        # write-through: the caller recentres / overwrites the arrays it got, then asks again
+        yg0 = yg.copy()
+        if scribble(xg) and scribble(yg):
+            xg2, yg2 = self.T.traceset2xy(tset, None, True) if ignore_jump else self.T.traceset2xy(tset)
+            out.expect(xg2.shape == (nT, n) and all(np.array_equal(xg2[t].astype(np.float64), want) for t in range(nT)),
+                       'write-through', 'default grid changed after the caller wrote into the arrays of an earlier call: '
+                       'first row starts %r, expected %r' % (xg2[0][:3].tolist(), want[:3].tolist()))
+            out.expect(yg2.shape == yg0.shape and np.array_equal(yg2, yg0), 'write-through',
+                       'default-grid evaluation changed after the caller wrote into the arrays of an earlier call')
+            no_alias(out, 'write-through', [('x of two default-grid calls', xg, xg2), ('y of two default-grid calls', yg, yg2)])
+            out.count('writethrough_default_grid')
+        else:
+            out.count('returned_array_readonly')
 
     def run_table(self, case, out):
         T = self.T
@@ -1129,6 +1256,9 @@ class C13(Check):
             if not out.fails:
                 out.count('table_eval_ignore_jump')
         if case['kind'] == 'grid':
+            tsetB = T.TraceSet(self._make_table(case)[0])          # same geometry, after the caller wrote into A's results
+            self._check_grid(out, tsetB, func, coeff, xmin, xmax, jump, eps_range, SPLIT_BAND['f8'], jump_eps=jeps)
+            out.count('writethrough_fresh_object')
             near = case['near']
             out.count({'exact': 'grid_exact_integer_range', 'frac': 'grid_fractional_range'}.get(near, 'grid_near_integer_range'))
         else:
@@ -1175,6 +1305,19 @@ class C13(Check):
                        float(tset.xmin) == xmin and float(tset.xmax) == xmax, 'repeat-evaluation',
                        'evaluating changed the trace set (coeff / xmin / xmax)')
             out.count('repeat_eval_same_object')
+            # write-through on explicit positions, and a fresh object of the same table
+            ye0 = ye.copy()
+            no_alias(out, 'write-through', [('two evaluations', ye, yr), ('an evaluation and coeff', ye, tset.coeff)])
+            nw = sum(scribble(a) for a in (ye, yr, yo, ys, xe, xr))
+            x3, y3 = T.traceset2xy(tset, lay(xpos, 'eval1', False))
+            out.expect(np.array_equal(y3, ye0), 'write-through',
+                       'evaluation at the same positions changed after the caller wrote into arrays of earlier calls')
+            tsetB = T.TraceSet(self._make_table(case)[0])
+            x4, y4 = T.traceset2xy(tsetB, lay(xpos, 'eval1', False))
+            out.expect(np.array_equal(y4, ye0), 'write-through', 'a fresh trace set of the same table evaluates differently')
+            self._check_grid(out, tsetB, func, coeff, xmin, xmax, jump, eps_range, SPLIT_BAND['f8'], jump_eps=jeps)
+            out.count('writethrough_explicit_xpos', nw)
+            out.count('writethrough_fresh_object')
             if ok:
                 out.count('table_eval_jump' if jump is not None else 'table_eval_nojump', nT)
                 if jump is not None:
